@@ -8,6 +8,7 @@ CONSTANTS
   WithCrash = FALSE
   HeadInBatch = TRUE
   CrashInHeadWindow = TRUE
+  WithTamper = FALSE
   SpendTrimCandidate = FALSE
 VIEW view
 ACTION_CONSTRAINT EmitHist
